@@ -92,8 +92,14 @@ func corruptFrame(env *Env, b []byte) []byte {
 	case 12:
 		// XMLData (212 length, 213 value) with a mismatching length, placed in the header; some of the
 		// lengths make the data field end inside or right at the trailer
-		ins := [][]byte{[]byte("212=0"), []byte("213=<a>\x01</a>")}
+		// ... or one of the other length/data pairs (RawData, Signature, SecureData, EncodedText)
+		pair := [][2]string{{"212", "213"}, {"212", "213"}, {"95", "96"}, {"93", "89"}, {"90", "91"}, {"354", "355"}}[ch.Choose("datapair", 6)]
+		lt, dt := pair[0], pair[1]
+		ins := [][]byte{[]byte(lt + "=0"), []byte(dt + "=<a>\x01</a>")}
 		at := 3
+		if lt != "212" {
+			at = len(fields) - 1 // body/trailer data fields go towards the end
+		}
 		if at > len(fields) {
 			at = len(fields)
 		}
@@ -101,13 +107,13 @@ func corruptFrame(env *Env, b []byte) []byte {
 			// directly in front of the trailer, value without SOH: the length decides whether the data
 			// field ends before, at, or inside the CheckSum field
 			at = len(fields) - 1
-			ins[1] = []byte("213=abc")
+			ins[1] = []byte(dt + "=abc")
 		}
 		fields = append(fields[:at], append(ins, fields[at:]...)...)
 		tmp := join(fields)
-		rest := len(tmp) - (bytes.Index(tmp, []byte("213=")) + 4)
+		rest := len(tmp) - (bytes.Index(tmp, []byte("\x01"+dt+"=")) + 2 + len(dt))
 		ln := []string{"5", "0", "-1", "500", "x", strconv.Itoa(rest), strconv.Itoa(rest - 1), strconv.Itoa(rest - 2), strconv.Itoa(rest - 4), strconv.Itoa(rest - 7), strconv.Itoa(rest - 8), strconv.Itoa(rest + 1), "9223372036854775807", "9223372036854775800"}[ch.Choose("xmllen", 14)]
-		fields[at] = []byte("212=" + ln)
+		fields[at] = []byte(lt + "=" + ln)
 		out = join(fields)
 	case 13:
 		g := [][]byte{[]byte("garbage"), []byte("8=FIX"), []byte("\x01\x01\x0110="), []byte("8=\x019=\x01"), {0, 0xff, 0xfe}}[ch.Choose("garbage", 5)]
